@@ -318,6 +318,15 @@ impl World {
                             _ => parked != "",
                         } && exp_hook.map(|h| h == parked).unwrap_or(true);
                         if fits {
+                            if matches!(parked, "Start" | "Handler" | "Stop") {
+                                // a spurious wake-up first: while one of these hooks is pending the lifecycle awaits
+                                // nothing else, so servicing the wake-ups that earlier commands left behind (a
+                                // reference dropped, a kill sent, a mailbox slot filled) must change nothing
+                                slot.rt.block_on(async {
+                                    tokio::task::yield_now().await;
+                                    tokio::task::yield_now().await;
+                                });
+                            }
                             slot.sh.give(Dir::Out(dir.to_string()));
                         } else {
                             self.inappl("burst: directive does not fit the parked hook");
